@@ -137,3 +137,25 @@ func VerifH_C08_stopVsAdd() {
 	}
 	vf.Reach("stopped-while-adding")
 }
+
+// C08.H4: Stop racing with the flush heart-beat that holds a stale, partly filled batch: no send on
+// the closed channel, whatever the order of the stop flag check, the lock and the hand-over.
+func VerifH_C08_stopVsHeartbeat() {
+	ctl := &verifOutCtl{sent: map[*Event]bool{}, commits: map[*Event]int{}}
+	b := NewBatcher(BatcherOptions{Controller: ctl, Workers: 1, BatchSizeCount: 3, FlushTimeout: verifFlush,
+		OutFn: func(_ *WorkerData, batch *Batch) {
+			batch.ForEach(func(e *Event) { ctl.sent[e] = true })
+		}})
+	b.workersWg.Add(1)
+	go b.work()
+	go b.heartbeat()
+	b.Add(&Event{SeqID: 1, Size: 1})
+	// the batch becomes stale; Stop arrives around the tick that would flush it
+	time.Sleep(verifFlush/2 + time.Duration(vf.Choose("stop-at", 6))*50*time.Millisecond) // 100 .. 350 ms: before, at and after the tick that finds the batch stale
+	b.Stop()
+	vf.Quiesce(300)
+	if vf.Param("twin", 0) == 1 {
+		vf.Fail("twin")
+	}
+	vf.Reach("stopped-around-a-flush-tick")
+}
